@@ -940,7 +940,13 @@ class Evaluator:
         if isinstance(b, IntInvert):
             b = -1 - int(b.v)
         if opname == "Mod" and isinstance(a, str):
-            return a  # string formatting: content irrelevant
+            args = b if isinstance(b, tuple) else (b,)
+            if all(isinstance(x, (str, int)) and not isinstance(x, bool) for x in args):
+                try:
+                    return a % (b if isinstance(b, tuple) else (b,))
+                except (TypeError, ValueError):
+                    return a
+            return a  # message formatting with symbolic values: content irrelevant
         if opname == "Add" and isinstance(a, str) and isinstance(b, str):
             return a + b
         if opname == "Add" and isinstance(a, (list, tuple)) and isinstance(b, (list, tuple)):
